@@ -425,6 +425,7 @@ MANIFEST = dict(
          "The hypothesis RepsOK (what the parser reports: coordinates inside the text, `;` between statements on one line) is "
          "evaluated on CPython's real ast output for every generated module (evidence: splice_hypothesis_RepsOK_*). Tie: "
          "byte-exact output of model and code on generated modules; search: AST of non-import statements unchanged and in order, "
-         "bound-name table of imports as expected, output compiles — on the real code.",
+         "bound-name table of imports as expected, output compiles — on the real code."
+         " Source pins: the normalised text of every anchor file is compared with the text the model was last validated against; a changed file is a broken obligation (no-failing-input-found unless the search finds an input).",
     note="Modelled, not verified: Python's parser (supplies statement spans), file I/O, directory walking. Trusted: Lean kernel + "
          "standard axioms, translator (importing target modules), hand model (sampling tie).")
